@@ -793,3 +793,26 @@ PROPS["E07"] = dict(
     rule="seeded builders over 16 source names (relative, dotted, climbing, rooted, with schemes, empty) with given contents here and there, against a scratch directory holding a random subset of 6 files; distinct = distinct (calls, fs); non-trivial = at least 2 calls",
     assumptions=COMMON_ASSUMPTIONS + ["the scratch directory under the system temp dir is writable; no file /no/such/root.js exists"],
 )
+
+def _corrupt_e08(e):
+    o = e["out"]
+    if o.get("k") == "ok":
+        o["count"] += 1
+    else:
+        o["is"] = not o["is"]
+    return True
+
+PROPS["E08"] = dict(
+    level="exploration",
+    level_text="extension: the FILE form of a RAM bundle (is_unbundle_path, RamBundle::parse_unbundle_from_path, module_count, startup_code, get_module, iter_modules) against a model of the directory (FileBundle.tla, as found): marker file with the magic, one <id>.js per module, count = highest id + 1",
+    level_note="beyond the listed properties; not registered in MANIFEST.json",
+    technique="TLA+ as-found specification, trace validation of real calls against real directories in a scratch location",
+    mc=[dict(module="MC_RamBundle", cfg="MC_RamBundle_quick.cfg", tiers=("quick", "thorough"), workers=4, gen=False)],
+    trace="Trace_E08",
+    selftest_include_free=True,
+    drive=dict(quick=dict(n=800, size=3), thorough=dict(n=16000, size=3)),
+    nontrivial=lambda e: True,
+    corrupt=_corrupt_e08,
+    rule="seeded directories: marker file variants (missing, other byte order, short, off by one, longer), bundle file present or not, up to 5 module files drawn from well-formed names (leading zeros, '+') and malformed ones, an ignored sub-directory; distinct = distinct directory model",
+    assumptions=COMMON_ASSUMPTIONS + ["the scratch directory under the system temp dir is writable"],
+)
